@@ -21,7 +21,7 @@ import re
 
 import sympy
 
-from mmsa import au, cfg as cfgmod, dataflow, sym, tbrrules
+from mmsa import au, cfg as cfgmod, dataflow, pathcond, sym, tbrrules
 from mmsa.core import Undecided, norm, walk_no_nested
 from mmsa.props import c08
 from mmsa.types import FuncCtx
@@ -174,10 +174,33 @@ def run(repo, rep, tier):
     rep.violation('R4/container', cc.qualname, 'no __init__', 'the series container no longer validates its bounds', cc.loc())
   else:
     rep.fn(init)
-    txt = norm(init.node)
-    for pat, what in ((r"if np\.any\(self\['lower'\] > self\['estimate'\]\): raise ValueError", 'lower > estimate is rejected'),
-                      (r"if np\.any\(self\['upper'\] < self\['estimate'\]\): raise ValueError", 'upper < estimate is rejected')):
-      rep.check(re.search(pat, txt) is not None, 'R4/container', 'container guard: %s' % what, init.qualname, what, 'the series container does not enforce that %s' % what, init.loc())
+    ictx = FuncCtx.of(init)
+    ig = ictx.g
+    for want, what in (("self['lower'] > self['estimate']", 'lower > estimate is rejected'),
+                       ("self['upper'] < self['estimate']", 'upper < estimate is rejected')):
+      found = False
+      for tn in ig.nodes:
+        if tn.kind != 'test':
+          continue
+        ex = ictx.rd.expand(tn, tn.expr)[0]
+        for lab in ('true', 'false'):
+          dnf = pathcond.literals(ex, lab == 'true')
+          if len(dnf) != 1 or len(dnf[0]) != 1:
+            continue
+          atom, tv = dnf[0][0]
+          # np.any(A > B) found true / np.all(A <= B) found false
+          if isinstance(atom, ast.Call) and len(atom.args) == 1 and isinstance(atom.args[0], ast.Compare):
+            fname = norm(atom.func)
+            if fname in ('np.any', 'numpy.any', 'any') and tv:
+              forms = pathcond.rel_forms(atom.args[0], True)
+            elif fname in ('np.all', 'numpy.all', 'all') and not tv:
+              forms = pathcond.rel_forms(atom.args[0], False)
+            else:
+              continue
+            succ = [m for m, l_ in ig.succ[tn] if l_ == lab]
+            if want in forms and succ and ig.exit not in ig.reachable(succ[0], cfgmod.no_exc):
+              found = True
+      rep.check(found, 'R4/container', 'container guard: %s' % what, init.qualname, what, 'the series container does not enforce that %s' % what, init.loc())
   # R5 shared input rules
   tbrrules.tbr_aggregation(repo, rep, 'R5/analysis-data')
   tbrrules.kwarg_subdict_rule(repo, rep, 'R5/analysis-data')
